@@ -407,6 +407,18 @@ for scen in (scenario_coro, scenario_thread, scenario_slice, scenario_custom, sc
                         leg.violation("inner-stack-error-discarded-by-successful-unwrap", f"{scen.__name__}:{label}@{k}: {msg}")
                 else:
                     leg.violation(f"{scen.__name__}:{label}@{k}", msg)
+        # two faults whose exceptions compare EQUAL (value-like exception classes) are still two faults: each retrievable by identity
+        class EqInj(Exception):
+            def __eq__(s, o): return type(o) is type(s)
+            def __hash__(s): return 7
+        for (l1, k1), (l2, k2) in list(itertools.combinations(singles, 2))[:: max(1, len(singles) * (len(singles) - 1) // 2 // 40)][:40]:
+            if hasattr(scen, "exc_factory"):
+                break
+            plan = {(l1, k1): EqInj("same"), (l2, k2): EqInj("same")}
+            msg, inj = check(scen.__name__, item, basepy, ((l1, k1), (l2, k2)), plan)
+            leg.case((scen.__name__, "equal-exceptions", l1, k1, l2, k2), len(inj.raised) == 2)
+            if msg and not msg.startswith("F19:") and not (scen is scenario_unwrapped_gcm and msg.startswith("raised but not retrievable")):
+                leg.violation(f"{scen.__name__}:equal-exceptions:{l1}@{k1}+{l2}@{k2}", msg)
         pairs = list(itertools.combinations(singles, 2))
         step = max(1, len(pairs) // PAIR_CAP)
         for (l1, k1), (l2, k2) in pairs[::step]:
